@@ -181,6 +181,46 @@ Theorem C13_binary_roundtrip : forall a b, In (FBinAny, a, b) conv_pairs ->
   convert FBinAny a b bin_off = color_black b /\ convert FBinAny a b bin_on = color_white b.
 Proof. exact c13_binary_roundtrip. Qed.
 
+(* web colours (WebColors, 141 CSS constants x 8 types): CSS_X = with_rgb888(r, g, b); every channel is the 8 bit CSS value scaled
+   to nearest, and exactly the CSS value for the 24 bit types *)
+Theorem C13_web_colors : forall t, In t web_types -> forall n r g b, In (n, (r, g, b)) web_colors ->
+  let c := with_rgb888 t r g b in
+  In t color_table /\ is_rgb t = true /\ (0 <= r <= 255 /\ 0 <= g <= 255 /\ 0 <= b <= 255) /\
+  valid t c /\
+  2 * Z.abs (get_r t c * 255 - r * max_r t) <= 255 /\
+  2 * Z.abs (get_g t c * 255 - g * max_g t) <= 255 /\
+  2 * Z.abs (get_b t c * 255 - b * max_b t) <= 255 /\
+  (max_r t = 255 -> get_r t c = r) /\ (max_g t = 255 -> get_g t c = g) /\ (max_b t = 255 -> get_b t c = b).
+Proof. exact c13_web_colors. Qed.
+
+(* the CSS values of web_colors.rs are the pinned copy of the CSS keyword table (a changed value breaks this) *)
+Theorem C13_web_values_pinned :
+  map (fun e => match snd e with (r, g, b) => r * 65536 + g * 256 + b end) web_colors = css_values_pinned /\
+  length web_colors = 141%nat /\ length web_types = 8%nat.
+Proof. exact c13_web_values_pinned. Qed.
+
+(* the 16 basic CSS keywords have their specified values *)
+Theorem C13_web_basic_keywords :
+  map web_lookup
+    [[67; 83; 83; 95; 66; 76; 65; 67; 75];
+     [67; 83; 83; 95; 83; 73; 76; 86; 69; 82];
+     [67; 83; 83; 95; 71; 82; 65; 89];
+     [67; 83; 83; 95; 87; 72; 73; 84; 69];
+     [67; 83; 83; 95; 77; 65; 82; 79; 79; 78];
+     [67; 83; 83; 95; 82; 69; 68];
+     [67; 83; 83; 95; 80; 85; 82; 80; 76; 69];
+     [67; 83; 83; 95; 70; 85; 67; 72; 83; 73; 65];
+     [67; 83; 83; 95; 71; 82; 69; 69; 78];
+     [67; 83; 83; 95; 76; 73; 77; 69];
+     [67; 83; 83; 95; 79; 76; 73; 86; 69];
+     [67; 83; 83; 95; 89; 69; 76; 76; 79; 87];
+     [67; 83; 83; 95; 78; 65; 86; 89];
+     [67; 83; 83; 95; 66; 76; 85; 69];
+     [67; 83; 83; 95; 84; 69; 65; 76];
+     [67; 83; 83; 95; 65; 81; 85; 65]] =
+  map Some [(0, 0, 0); (192, 192, 192); (128, 128, 128); (255, 255, 255); (128, 0, 0); (255, 0, 0); (128, 0, 128); (255, 0, 255); (0, 128, 0); (0, 255, 0); (128, 128, 0); (255, 255, 0); (0, 0, 128); (0, 0, 255); (0, 128, 128); (0, 255, 255)].
+Proof. exact c13_web_basic_keywords. Qed.
+
 (* the quantifier: 182 provided conversions = every ordered pair of distinct built-in types, between table rows, no duplicates *)
 Theorem C13_pairs_census :
   length conv_pairs = 182%nat /\
